@@ -368,6 +368,54 @@ def extrude_config(h, order=(0, 1)):
         h.concrete('every pair of consecutive levels is filled by exactly one prism', sorted(used) == list(range(n - 1)), str(used))
 
 
+def extrude_line_config(h, orderx=(0, 1), ordery=(0, 1)):
+    """MeshLine1 * MeshLine1: one quadrilateral per pair of consecutive x- and y-levels (levels in increasing order whatever the storage
+    order of the nodes), corners exactly at the four level combinations, all cells with the same orientation."""
+    import skfem as S
+    with warnings.catch_warnings():
+        warnings.simplefilter('ignore')
+        def line(name, order):
+            n = len(order)
+            nominal = np.zeros((1, n))
+            for rank, node in enumerate(order):
+                nominal[0, node] = 0.25 + 1.25 * rank + (0.125 if name == 'y' else 0.0)
+            z = h.sym(name, (1, n), nominal=nominal)
+            if h.sym_mode:
+                for i in range(n - 1):
+                    h.assume(z[0, order[i]] < z[0, order[i + 1]])
+            return z, S.MeshLine1(z, np.array([[order[i] for i in range(n - 1)], [order[i + 1] for i in range(n - 1)]]))
+        x, mx = line('x', orderx)
+        y, my = line('y', ordery)
+        Q = mx * my
+        h.sample(dict(x_nodes_low_to_high=list(orderx), y_nodes_low_to_high=list(ordery)))
+        h.concrete('a quadrilateral mesh with one cell per pair of intervals', type(Q).__name__ == 'MeshQuad1' and np.asarray(Q.t).shape == (4, (len(orderx) - 1) * (len(ordery) - 1)))
+        P, t = Q.doflocs, np.asarray(Q.t)
+
+        def same(a, b_):
+            if h.sym_mode:
+                return tosym(a).a.eq(tosym(b_).a) if tosym(a).c is None or tosym(b_).c is None else tosym(a).c == tosym(b_).c
+            return float(a) == float(b_)
+        used = []
+        signs = []
+        for c in range(t.shape[1]):
+            corners = [(P[0, v], P[1, v]) for v in t[:, c]]
+            found = None
+            for i in range(len(orderx) - 1):
+                for j in range(len(ordery) - 1):
+                    want = [(x[0, orderx[i + a]], y[0, ordery[j + b_]]) for a in (0, 1) for b_ in (0, 1)]
+                    if all(any(same(cx, wx) and same(cy, wy) for (cx, cy) in corners) for (wx, wy) in want):
+                        found = (i, j)
+            h.concrete('cell %d has its corners at the four combinations of two consecutive x- and y-levels' % c, found is not None)
+            used.append(found)
+            area = cell_measure(P, t[:, c], 'quad')
+            signs.append(area)
+        h.concrete('every pair of intervals is filled by exactly one cell', sorted(u for u in used if u) == [(i, j) for i in range(len(orderx) - 1) for j in range(len(ordery) - 1)])
+        for c in range(1, len(signs)):
+            h.valid('cells 0 and %d have the same orientation and are non-degenerate' % c, signs[0] * signs[c] > 0, kinds=('nlsat', 'default'))
+        if len(signs) == 1:
+            h.valid('the cell is non-degenerate', signs[0] * signs[0] > 0, kinds=('nlsat', 'default'))
+
+
 def to_meshtet_config(h, kind, ncells):
     """MeshHex1/MeshWedge1.to_meshtet on parallelepipeds / triangular prisms with symbolic origin and edge vectors: every tetrahedron
     uses vertices of one parent, the volumes add up to the parent's, the split is conforming (boundary triangle count)."""
@@ -528,6 +576,8 @@ def build_configs(tier, seed):
             sub={'s0': [0], 's2': [2]}, bnd={'b%d' % f: [f] for f in range(10)})
     for order in [(0, 1), (1, 0), (0, 2, 1), (2, 0, 1)] + ([] if quick else [(1, 2, 0), (2, 1, 0), (0, 1, 2), (1, 0, 2)]):
         add('extrude/tri1xline/levels=%s' % ''.join(map(str, order)), extrude_config, order=order)
+    for ox, oy in [((0, 1), (1, 0)), ((1, 0, 2), (0, 1)), ((0, 2, 1), (2, 0, 1))]:
+        add('extrude/linexline/x=%s/y=%s' % (''.join(map(str, ox)), ''.join(map(str, oy))), extrude_line_config, orderx=ox, ordery=oy)
     for kind in ('hex', 'wedge'):
         for n in (1, 2):
             add('to_meshtet/%s/cells=%d' % (kind, n), to_meshtet_config, kind=kind, ncells=n, timeout=900 if quick else 3000)
